@@ -30,6 +30,8 @@ Iterables ==
     [n |-> "lit_nil", e |-> Arr(<<IntL(11), Id("nil"), IntL(33)>>), data |-> EmptyScope, xs |-> <<I(11), I(33), I(33)>>, kind |-> "seqnil"],
     [n |-> "slice_nil", e |-> Id("xs"), data |-> [xs |-> A(<<I(11), Nil, I(33)>>)], xs |-> <<I(11), I(33), I(33)>>, kind |-> "seqnil"],
     [n |-> "range", e |-> Call("range", <<IntL(3), IntL(5)>>), data |-> EmptyScope, xs |-> <<I(3), I(4), I(5)>>, kind |-> "seq"],
+    \* an open-ended interval (up to the largest int), left with break
+    [n |-> "range_open", e |-> Call("range", <<IntL(3), MaxIntLit>>), data |-> EmptyScope, xs |-> <<I(3), I(4), I(5)>>, kind |-> "seq"],
     [n |-> "range_empty", e |-> Call("range", <<IntL(3), IntL(2)>>), data |-> EmptyScope, xs |-> <<>>, kind |-> "seq"],
     [n |-> "between", e |-> Call("between", <<IntL(0), IntL(3)>>), data |-> EmptyScope, xs |-> <<I(1), I(2)>>, kind |-> "seq"],
     [n |-> "until", e |-> Call("until", <<IntL(2)>>), data |-> EmptyScope, xs |-> <<I(0), I(1)>>, kind |-> "seq"],
@@ -100,6 +102,7 @@ AddStmt == /\ res.k = "none" /\ Len(names) < MaxLen
            /\ UNCHANGED <<it, res>>
 \* (a body may be empty: the loop still looks at its iterable)
 Finish == /\ res.k = "none"
+          /\ (it.n = "range_open" => (names # <<>> /\ names[1] \in {"brk", "tbrk", "ebrk"}))      \* (the loop must end)
           /\ res' = Run(Prog, WithHelpers(it.data), EmptyScope, "")
           /\ UNCHANGED <<it, names>>
 Next == AddStmt \/ Finish
